@@ -13,6 +13,29 @@ instance : BEq PVal := ⟨PVal.beq⟩
 def renderRow (r : List PVal) : String := ",".intercalate (r.map PVal.render)
 def renderRows (rs : List (List PVal)) : String := ";".intercalate (rs.map renderRow)
 
+def showOp : CmpOp → String
+  | .eq => "eq" | .ne => "ne" | .lt => "lt" | .le => "le" | .gt => "gt" | .ge => "ge"
+  | .contains => "contains" | .notContains => "not_contains"
+
+def showTerm : Term PVal → String
+  | .var v => s!"(var {v})"
+  | .lit c => s!"(lit {c.render})"
+  | .attr n t => s!"(attr {n} {showTerm t})"
+  | .index k t => s!"(idx {k.render} {showTerm t})"
+  | .call m args t => s!"(call {m} ({" ".intercalate (args.map PVal.render)}) {showTerm t})"
+  | .flatten id t => s!"(flat {id} {showTerm t})"
+
+def showBool (b : Bool) : String := if b then "1" else "0"
+
+/-- The constructed tree, in the same notation the harness prints the real tree in. -/
+def showCond : Cond PVal → String
+  | .cmp op l r => s!"(cmp {showOp op} {showTerm l} {showTerm r})"
+  | .truth inv t => s!"(truth {showBool inv} {showTerm t})"
+  | .pred inv n args => s!"(pred {showBool inv} {n} {" ".intercalate (args.map showTerm)})"
+  | .and l r => s!"(AND {showCond l} {showCond r})"
+  | .elseIf l r => s!"(ElseIf {showCond l} {showCond r})"
+  | .sub sel c => s!"(sub ({" ".intercalate (sel.map showTerm)}) {showCond c})"
+
 def field? (name : String) (xs : List Sexp) : Option (List Sexp) :=
   xs.findSome? fun x => match x.headed? with
     | some (h, args) => if h == name then some args else none
@@ -43,9 +66,9 @@ def runQuery (args : List Sexp) : Option String := do
       | .ok r => "ok " ++ renderRow r
       | .noSolution => "none"
       | .multipleSolutions => "multi"
-    return s!"{id}\tT\t{out}\tS\t{renderRows spec}"
+    return s!"{id}\tT\t{out}\tS\t{renderRows spec}\tB\t{(q.cond.map showCond).getD "-"}"
   else
-    return s!"{id}\tR\t{renderRows (rows W D q)}\tS\t{renderRows spec}"
+    return s!"{id}\tR\t{renderRows (rows W D q)}\tS\t{renderRows spec}\tB\t{(q.cond.map showCond).getD "-"}"
 
 def process (line : String) : String :=
   match Sexp.parse line with
